@@ -473,7 +473,7 @@ fn analyse(s: &[u8], exps: &[Exp]) -> Parsed {
             let tot = if m.total == usize::MAX { "?".to_string() } else { m.total.to_string() };
             p.viol = Some((
                 "bytes_after_torn_frame".into(),
-                format!("frame tag {} ({} B) is cut after {} byte(s) at stream offset {} and is followed on the same connection by {}", e.tag, tot, l, pos + l, what),
+                format!("frame tag {} ({} B) is cut after {} byte(s) at stream offset {} and is followed on the same connection by {} [bytes at the frame start: {}]", e.tag, tot, l, pos + l, what, hex(&rest[..rest.len().min(96)])),
             ));
         }
         return p;
@@ -1680,8 +1680,9 @@ fn run_ws_server(sc: &Script) -> Result<Capture, String> {
     if drain.is_some() && dat == 0 {
         let _ = sd_tx.take().unwrap().send(());
     }
-    if sc.o("fin", 0) == 1 {
+    if sc.o("fin", 0) == 1 && wait_until(|| sent.load(SeqCst), Duration::from_secs(2)) {
         // the peer ends its side while the writer is (possibly) blocked mid-send: the reader sees the end first
+        // (only once every request is out: the Close must not land inside a request that is still being sent)
         let _ = sock.write_all(&ws_frame(8, &1000u16.to_be_bytes(), true));
     }
     std::thread::sleep(Duration::from_millis(sc.stall_ms));
@@ -2284,13 +2285,30 @@ fn gen_scripts(r: &mut Rng, thorough: bool) -> Vec<Script> {
             let ws: Vec<Wr> = totals.iter().enumerate().map(|(t, tot)| w0(if ep <= 2 { if t % 3 == 0 { 'c' } else { 'n' } } else { 'r' }, for_total(*tot, t))).collect();
             push(&mut v, Script { idx: String::new(), ep, buf: small, rt: 2, chunk: 65536, stall_at: r.below(200000), stall_ms: 60, fault: Fault::None, opt: o1("obs", 2), ws });
             if ep >= 3 {
-                // (g) N identical refusals / handler errors in a row, then ordinary requests
-                let picks: Vec<usize> = if thorough { vec![1, 2, 7, 8, 9, 16, 17, 64, 65, 256, 1000] } else { vec![*r.pick(&runs_q), *r.pick(&[8usize, 9, 16, 17])] };
-                for (j, n) in picks.iter().enumerate() {
-                    let kind = (j + kk) % 4;
-                    let mut ws: Vec<Wr> = (0..*n).map(|_| match kind { 0 => Wr { xr: true, ..w0('r', 10) }, 1 => Wr { ver: Some(2), ..w0('r', 10) }, 2 => Wr { hb: 1, ..w0('r', 10) }, _ => Wr { qf: Some(0), ..w0('r', 0) } }).collect();
-                    ws.push(w0('r', 9000));
-                    ws.push(w0('r', 100));
+                // (g) N identical refusals / handler errors in a row, then ordinary requests: one connection with runs
+                //     of 9, 17 and 65 of one kind (quick) and one run of a PRNG-chosen length of mixed kinds; every
+                //     length and kind on its own connection in thorough
+                let refusal = |kind: usize| match kind % 4 { 0 => Wr { xr: true, ..w0('r', 10) }, 1 => Wr { ver: Some(2), ..w0('r', 10) }, 2 => Wr { hb: 1, ..w0('r', 10) }, _ => Wr { qf: Some(0), ..w0('r', 0) } };
+                let mut lists: Vec<Vec<Wr>> = Vec::new();
+                let mut ws: Vec<Wr> = Vec::new();
+                for n in [9usize, 17, 65] {
+                    ws.extend((0..n).map(|_| refusal(kk + ep)));
+                    ws.push(w0('r', 700));
+                }
+                lists.push(ws);
+                let n = *r.pick(&runs_q);
+                let mut ws: Vec<Wr> = (0..n).map(|j| refusal(j + kk)).collect();
+                ws.push(w0('r', 9000));
+                lists.push(ws);
+                if thorough {
+                    for (j, n) in [1usize, 2, 7, 8, 9, 16, 17, 64, 65, 256, 1000].iter().enumerate() {
+                        let mut ws: Vec<Wr> = (0..*n).map(|_| refusal(j)).collect();
+                        ws.push(w0('r', 9000));
+                        ws.push(w0('r', 100));
+                        lists.push(ws);
+                    }
+                }
+                for ws in lists {
                     let mut opt = o1("rq", *r.pick(&[0u64, 1, 2]));
                     if ep == 5 { opt.insert("cap".to_string(), *r.pick(&[1u64, 2, 256])); }
                     push(&mut v, Script { idx: String::new(), ep, buf: 16384, rt: 2, chunk: 65536, stall_at: 0, stall_ms: 20, fault: Fault::None, opt, ws });
@@ -2306,7 +2324,8 @@ fn gen_scripts(r: &mut Rng, thorough: bool) -> Vec<Script> {
                 }
                 // (k) pairs of knobs: rows of the orthogonal array OA(8, 7, 2, 2)
                 let oa: [[u8; 7]; 8] = [[0, 0, 0, 0, 0, 0, 0], [0, 0, 0, 1, 1, 1, 1], [0, 1, 1, 0, 0, 1, 1], [0, 1, 1, 1, 1, 0, 0], [1, 0, 1, 0, 1, 0, 1], [1, 0, 1, 1, 0, 1, 0], [1, 1, 0, 0, 1, 1, 0], [1, 1, 0, 1, 0, 0, 1]];
-                let rows: Vec<usize> = if thorough { (0..8).collect() } else { vec![(kk + ep) % 8, (kk + ep + 3) % 8] };
+                // (quick: two rows; for the TCP servers one of them has write timeout AND read timeout)
+                let rows: Vec<usize> = if thorough { (0..8).collect() } else if ep <= 4 { vec![4 + kk % 2, (kk + ep) % 4] } else { vec![(kk + ep) % 8, (kk + ep + 3) % 8] };
                 for row in rows {
                     let b = oa[row];
                     let mut opt = std::collections::BTreeMap::new();
@@ -2326,7 +2345,7 @@ fn gen_scripts(r: &mut Rng, thorough: bool) -> Vec<Script> {
                         if b[6] == 1 { opt.insert("rq".to_string(), 2); }
                         if b[0] == 1 { opt.insert("obs".to_string(), 2); }
                     } else {
-                        if b[0] == 1 { fault = Fault::WTimeout(if b[1] == 1 { 1 } else { 400 }); }
+                        if b[0] == 1 { fault = Fault::WTimeout(if b[1] == 1 { 1 } else { 60 }); }
                         if b[2] == 1 { opt.insert("rto".to_string(), if b[6] == 1 { 40 } else { 5000 }); }
                         if ep == 3 { opt.insert("nd".to_string(), b[3] as u64); }
                         if b[4] == 1 { opt.insert("conns".to_string(), 2); }
@@ -2447,6 +2466,11 @@ fn main() {
             eprintln!("[torn] slow case ({:?}): {}", t0.elapsed(), &line[..line.len().min(300)]);
         }
         out.case(&op, &obs, nt);
+        if out.oracle_failures >= 12 {
+            // a broken tree: the failing inputs are on record, no need to run the rest
+            out.count("stopped-after-12-oracle-failures");
+            break;
+        }
     }
     out.finish();
 }
